@@ -769,3 +769,4 @@ MANIFEST["text"] += ' R8: ObjectPixelated.backward applies the ELEMENT-WISE conj
 MANIFEST["text"] += " R9: in fourier_projection a value that went through fftshift is brought back by ifftshift (and vice versa) — the same shift applied twice along a data-flow chain leaves odd-length axes rolled by one sample."
 MANIFEST["text"] += " R10: the frequency grid of fourier_translation_operator is never converted to the dtype of the shift vectors (integer positions would truncate every frequency to 0); recogniser self-tested on an embedded positive example."
 MANIFEST["text"] += ' R4/R9 are decided by a centring typestate (Centred/Corner; fftshift: Corner→Centred, ifftshift: Centred→Corner; element-wise pairings need equal frames; ifft2 needs Corner), flow-sensitive per branch, with estimate_amplitudes summarised for the option values its callers pass.'
+MANIFEST["text"] += ' R4 also (coupled): the single/mixed-state dispatch reads the live mode count (delegation, or a cache that no probe-model method can invalidate).'
